@@ -325,7 +325,38 @@ def holds (g : Cli.Grammar) (p : Cli.Parsed) : Expect → Bool
       | none => false
       | some a => isVals (valIn c p a) vs
 
-def means (g : Cli.Grammar) (p : Cli.Parsed) (es : List Expect) : Bool := es.all (holds g p)
+def valEq : Cli.Val → Cli.Val → Bool
+  | .flag a, .flag b => a == b
+  | .count a, .count b => Nat.beq a b
+  | .vals a, .vals b => seqL a b
+  | _, _ => false
+
+/-- expectation `e` is about argument `a` -/
+def targets (poss : List Cli.Arg) (a : Cli.Arg) : Expect → Bool
+  | .sub _ => false
+  | .pos k _ => (match poss[k]? with | some b => seq b.id a.id | none => false)
+  | .flag n => Cli.optIs a.long n || Cli.anyIs a.aliases n
+  | .opt n _ => Cli.optIs a.long n || Cli.anyIs a.aliases n
+  | .short c => Cli.optIsC a.short c
+
+/-- nothing else is set: every argument of the subcommand (its own and the globals) that no expectation is
+    about holds its default -/
+def untouched (g : Cli.Grammar) (p : Cli.Parsed) (es : List Expect) : Bool :=
+  match Cli.findSub g.subs p.sub with
+  | none => false
+  | some c =>
+    let poss := Cli.positionals c.args
+    (Cli.subArgs g c).all (fun a =>
+      Cli.isAuto a || es.any (targets poss a) ||
+      (match valIn c p a with
+       | some v => valEq v (Cli.valueOf a [])
+       | none => false))
+
+/-- the parse result is exactly what the builder's option object calls for: every expectation holds
+    (positionals exactly the given terms and paths, every pushed flag set, every pushed option holding
+    exactly the given values) and nothing else is set -/
+def means (g : Cli.Grammar) (p : Cli.Parsed) (es : List Expect) : Bool :=
+  es.all (holds g p) && untouched g p es
 
 /-- accepted with the intended meaning -/
 def okFor (g : Cli.Grammar) (b : Builder) (v : Valuation) : Bool :=
